@@ -570,7 +570,10 @@ func uuidCanonical(u gocql.UUID) string {
 // double quote and no backslash: the same text is also handed to the JSON decoder between quotes.
 var uuidForeign = []string{"g", "G", "/", ":", "@", "`", "x", "X", "o", "O", "l", " ", "\t", "\n", "\r", "\x00", "\x7f",
 	"{", "}", "(", ")", "_", "+", ".", ",", "=", "%", "­", "‐", "−", "－", "０", "９", "ｆ", "Ａ",
-	"٠", "०", "İ", "Ł", "ѡ", "ℹ", "\U0001F535", "\U0001D7D8", "�", "\xff", "\x80", "\xc3", "\xe2\x80"}
+	"٠", "०", "İ", "Ł", "ѡ", "ℹ", "\U0001F535", "\U0001D7D8", "�", "\xff", "\x80", "\xc3", "\xe2\x80",
+	// the bytes one bit away from a digit or a hex letter (what folding or masking a character
+	// before classifying it would let through)
+	"\x10", "\x11", "\x15", "\x19", "\x1a", "p", "q", "y", "P", "Y", "!", "&", "A\u0300", "\x01", "\x06", "\x21", "\x26", "\xb0", "\xb9", "\xc1", "\xe6"}
 
 // uuidDrawText builds one text from the tape (all zeros: 32 digits '0' in the printed form).
 func uuidDrawText(tp *kernel.Tape) (text string, recipe string) {
